@@ -74,17 +74,27 @@ var c12StatusCoq = map[markertypes.MarkerStatus]string{
 type c12Variant struct {
 	name       string
 	status     markertypes.MarkerStatus
-	hasManager bool
+	hasManager bool     // on the unchanged code
+	activated  bool     // the marker is or has been active (known from the lifecycle driven here)
+	route      []string // non-nil: built through the real message handlers, incl. governance ChangeStatus
 }
 
 var c12Variants = []c12Variant{
-	{"proposed", markertypes.StatusProposed, true},
-	{"finalized", markertypes.StatusFinalized, true},
-	{"active", markertypes.StatusActive, false},
-	{"cancelled-before-activation", markertypes.StatusCancelled, true},
-	{"cancelled-after-activation", markertypes.StatusCancelled, false},
-	{"destroyed-before-activation", markertypes.StatusDestroyed, true},
-	{"destroyed-after-activation", markertypes.StatusDestroyed, false},
+	{"proposed", markertypes.StatusProposed, true, false, nil},
+	{"finalized", markertypes.StatusFinalized, true, false, nil},
+	{"active", markertypes.StatusActive, false, true, nil},
+	{"cancelled-before-activation", markertypes.StatusCancelled, true, false, nil},
+	{"cancelled-after-activation", markertypes.StatusCancelled, false, true, nil},
+	{"destroyed-before-activation", markertypes.StatusDestroyed, true, false, nil},
+	{"destroyed-after-activation", markertypes.StatusDestroyed, false, true, nil},
+	// lifecycles through the message router, with governance status changes
+	{"gov-activated-from-proposed", markertypes.StatusActive, false, true, []string{"gov:active"}},
+	{"gov-activated-from-finalized", markertypes.StatusActive, false, true, []string{"finalize", "gov:active"}},
+	{"gov-activated-then-cancelled", markertypes.StatusCancelled, false, true, []string{"gov:active", "cancel"}},
+	{"gov-activated-then-gov-cancelled", markertypes.StatusCancelled, false, true, []string{"gov:active", "gov:cancelled"}},
+	{"gov-activated-cancelled-destroyed", markertypes.StatusDestroyed, false, true, []string{"gov:active", "cancel", "delete"}},
+	{"gov-finalized", markertypes.StatusFinalized, true, false, []string{"gov:finalized"}},
+	{"gov-cancelled-from-proposed", markertypes.StatusCancelled, true, false, []string{"gov:cancelled"}},
 }
 
 type c12Env struct {
@@ -94,6 +104,7 @@ type c12Env struct {
 	gov  sdk.AccAddress
 	n    int // denom counter
 	te   *c12TEnv
+	w    *CaseWriter
 }
 
 func (e *c12Env) handle(ctx sdk.Context, msg sdk.Msg) error {
@@ -119,8 +130,90 @@ func (e *c12Env) fundBypass(ctx sdk.Context, to sdk.AccAddress, coins sdk.Coins)
 	e.must(e.app.BankKeeper.SendCoins(markertypes.WithBypass(ctx), authtypes.NewModuleAddress(minttypes.ModuleName), to, coins), "fund")
 }
 
+var c12StatusByName = map[string]markertypes.MarkerStatus{
+	"proposed": markertypes.StatusProposed, "finalized": markertypes.StatusFinalized, "active": markertypes.StatusActive,
+	"cancelled": markertypes.StatusCancelled, "destroyed": markertypes.StatusDestroyed,
+}
+
+// driveLife creates a marker with MsgAddMarkerRequest (manager without any access grant,
+// governance control on) and walks it through the given transitions with the real message
+// handlers: finalize / activate by the manager, cancel / delete by a DELETE holder, "gov:<status>"
+// by MsgChangeStatusProposalRequest of the governance account.  It emits the observed lifecycle as a
+// CLife case and returns whether an Active status was ever observed.
+func (e *c12Env) driveLife(ctx sdk.Context, denom string, restricted bool, initial markertypes.MarkerStatus, supply int64, route []string) bool {
+	mgr := addrN(c12Manager)
+	mt := markertypes.MarkerType_Coin
+	if restricted {
+		mt = markertypes.MarkerType_RestrictedCoin
+	}
+	add := markertypes.NewMsgAddMarkerRequest(denom, sdkmath.NewInt(supply), mgr, mgr, mt, true, true, false, nil, 0, 0)
+	add.Status = initial
+	add.AccessList = []markertypes.AccessGrant{
+		{Address: addrN(c12Minter).String(), Permissions: []markertypes.Access{markertypes.Access_Mint}},
+		{Address: addrN(c12Deleter).String(), Permissions: []markertypes.Access{markertypes.Access_Delete}},
+	}
+	e.must(e.handle(ctx, add), "MsgAddMarkerRequest "+denom)
+	m, err := e.app.MarkerKeeper.GetMarkerByDenom(ctx, denom)
+	e.must(err, "get "+denom)
+	init := fmt.Sprintf("{| l_status := %s; l_manager := %s; l_activated := false |}", c12StatusCoq[m.GetStatus()], coqBool(!m.GetManager().Empty()))
+	activated := false
+	var obs []string
+	var sdesc []map[string]any
+	for _, op := range route {
+		var msg sdk.Msg
+		var coqOp string
+		switch {
+		case op == "finalize":
+			msg, coqOp = markertypes.NewMsgFinalizeRequest(denom, mgr), "LFinalize"
+		case op == "activate":
+			msg, coqOp = markertypes.NewMsgActivateRequest(denom, mgr), "LActivate"
+		case op == "cancel":
+			msg, coqOp = markertypes.NewMsgCancelRequest(denom, addrN(c12Deleter)), "LCancel"
+		case op == "delete":
+			msg, coqOp = markertypes.NewMsgDeleteRequest(denom, addrN(c12Deleter)), "LDelete"
+		case strings.HasPrefix(op, "gov:"):
+			st := c12StatusByName[strings.TrimPrefix(op, "gov:")]
+			msg, coqOp = markertypes.NewMsgChangeStatusProposalRequest(denom, st, e.gov.String()), "(LGov "+c12StatusCoq[st]+")"
+		default:
+			e.t.Fatalf("unknown lifecycle op %q", op)
+		}
+		cc, write := ctx.CacheContext()
+		err := e.handle(cc, msg)
+		if err == nil {
+			write()
+		}
+		m, gerr := e.app.MarkerKeeper.GetMarkerByDenom(ctx, denom)
+		e.must(gerr, "get "+denom)
+		if m.GetStatus() == markertypes.StatusActive {
+			activated = true
+		}
+		obs = append(obs, fmt.Sprintf("{| lo_op := %s; lo_ok := %s; lo_status := %s; lo_manager := %s |}", coqOp, coqBool(err == nil), c12StatusCoq[m.GetStatus()], coqBool(!m.GetManager().Empty())))
+		sdesc = append(sdesc, map[string]any{"op": op, "ok": err == nil, "status_after": m.GetStatus().String(), "manager_after": m.GetManager().String()})
+		e.w.Count("lifecycle_steps")
+		if err == nil {
+			e.w.Count("lifecycle_steps_accepted")
+		}
+	}
+	e.w.Add(fmt.Sprintf("CLife %s %s", init, coqList(obs)), map[string]any{"part": "lifecycle", "denom": denom, "restricted": restricted, "initial": initial.String(), "steps": sdesc})
+	e.w.Count("lifecycle_cases")
+	if activated {
+		e.w.Nontrivial("l/" + init + strings.Join(obs, ";"))
+	}
+	return activated
+}
+
 // makeMarker creates a marker through the real keeper and walks it to the variant's status.
 func (e *c12Env) makeMarker(ctx sdk.Context, denom string, v c12Variant, restricted, forced, govctl bool, supply int64) {
+	if v.route != nil {
+		// through the message router; whether the manager survives is observed, not assumed
+		e.driveLife(ctx, denom, restricted, markertypes.StatusProposed, supply, v.route)
+		m, err := e.app.MarkerKeeper.GetMarkerByDenom(ctx, denom)
+		e.must(err, "get "+denom)
+		if m.GetStatus() != v.status {
+			e.t.Fatalf("setup %s (%s): status %s", denom, v.name, m.GetStatus())
+		}
+		return
+	}
 	mk := e.app.MarkerKeeper
 	mt := markertypes.MarkerType_Coin
 	if restricted {
@@ -262,13 +355,14 @@ func TestC12(t *testing.T) {
 	r := newRand("C12")
 	w := NewCaseWriter("C12", "PV.Corr.C12", "check_all", 1000)
 	app, base := newApp(t)
-	e := &c12Env{t: t, app: app, base: base}
+	e := &c12Env{t: t, app: app, base: base, w: w}
 	e.gov = sdk.MustAccAddressFromBech32(app.MarkerKeeper.GetAuthority())
 	for _, n := range []int{c12Caller, c12Manager, c12Third, c12Minter, c12Deleter, c12Recv, c12Denied, c12Grantee} {
 		ensureAccount(app, base, addrN(n))
 	}
 
 	c12Access(e, r, w)
+	c12Lifecycles(e, r, w)
 	c12Transfers(e, r, w)
 	c12Sequences(e, r, w)
 	w.Flush(t)
@@ -286,6 +380,9 @@ func c12Access(e *c12Env, r *rand.Rand, w *CaseWriter) {
 		for _, restricted := range []bool{false, true} {
 			for _, govctl := range []bool{false, true} {
 				for _, zero := range []bool{false, true} {
+					if v.route != nil && !govctl {
+						continue // the governance route needs governance control: one marker serves both keys
+					}
 					e.n++
 					denom := fmt.Sprintf("xacc%03d", e.n)
 					supply := int64(1000)
@@ -294,6 +391,9 @@ func c12Access(e *c12Env, r *rand.Rand, w *CaseWriter) {
 					}
 					e.makeMarker(base, denom, v, restricted, false, govctl, supply)
 					markers[c12Key{vi, restricted, govctl, zero}] = denom
+					if v.route != nil {
+						markers[c12Key{vi, restricted, false, zero}] = denom
+					}
 				}
 			}
 		}
@@ -319,6 +419,9 @@ func c12Access(e *c12Env, r *rand.Rand, w *CaseWriter) {
 					govctls := []bool{r.Intn(2) == 0}
 					if ck == "gov" {
 						govctls = []bool{false, true}
+					}
+					if v.route != nil {
+						govctls = []bool{true}
 					}
 					for _, govctl := range govctls {
 						modes := []string{"normal"}
@@ -376,11 +479,11 @@ func c12Access(e *c12Env, r *rand.Rand, w *CaseWriter) {
 								if restricted {
 									mt = "TRestricted"
 								}
-								cfg := fmt.Sprintf("{| c_status := %s; c_type := %s; c_rights := %d%%N; c_manager := %s; c_gov := %s; c_govctl := %s; c_allsupply := %s; c_supply_zero := %s |}",
-									c12StatusCoq[before], mt, mask, coqBool(isMgr), coqBool(ck == "gov"), coqBool(m.HasGovernanceEnabled()), coqBool(allSupply), coqBool(supplyZero))
+								cfg := fmt.Sprintf("{| c_status := %s; c_type := %s; c_rights := %d%%N; c_manager := %s; c_gov := %s; c_govctl := %s; c_allsupply := %s; c_supply_zero := %s; c_activated := %s |}",
+									c12StatusCoq[before], mt, mask, coqBool(isMgr), coqBool(ck == "gov"), coqBool(m.HasGovernanceEnabled()), coqBool(allSupply), coqBool(supplyZero), coqBool(v.activated))
 								w.Add(fmt.Sprintf("CAccess %s %s %s %s", cfg, op, coqBool(err == nil), c12StatusCoq[after]),
 									desc{"part": "access", "op": op, "marker": v.name, "type": mt, "rights": c12RightList(mask), "caller": ck,
-										"gov_control": m.HasGovernanceEnabled(), "mode": mode, "holds_all_supply": allSupply, "supply_zero": supplyZero,
+										"gov_control": m.HasGovernanceEnabled(), "mode": mode, "caller_is_stored_manager": isMgr, "marker_was_activated": v.activated, "holds_all_supply": allSupply, "supply_zero": supplyZero,
 										"ok": err == nil, "status_after": after.String()})
 								w.Count("access_cases")
 								w.Count("access_" + op)
@@ -392,6 +495,75 @@ func c12Access(e *c12Env, r *rand.Rand, w *CaseWriter) {
 						}
 					}
 				}
+			}
+		}
+	}
+}
+
+// ---------------------------------------------------------------------------------------------
+// Part D: random lifecycles through the message router (incl. governance ChangeStatus), then every
+// endpoint probed as the (former) manager, who holds no access grant unless a mask says so.
+// ---------------------------------------------------------------------------------------------
+
+func c12Lifecycles(e *c12Env, r *rand.Rand, w *CaseWriter) {
+	app, base := e.app, e.base
+	type desc map[string]any
+	allOps := []string{"finalize", "activate", "cancel", "delete", "gov:proposed", "gov:finalized", "gov:active", "gov:cancelled", "gov:destroyed"}
+	n := scale(250, 4000)
+	for i := 0; i < n; i++ {
+		ctx, _ := base.CacheContext()
+		restricted := r.Intn(2) == 0
+		initial := markertypes.StatusProposed
+		if r.Intn(5) == 0 {
+			initial = markertypes.StatusFinalized
+		}
+		var route []string
+		for k := 1 + r.Intn(5); k > 0; k-- {
+			op := allOps[r.Intn(len(allOps))]
+			if r.Intn(3) == 0 {
+				op = "gov:active"
+			}
+			route = append(route, op)
+		}
+		denom := "xlife"
+		activated := e.driveLife(ctx, denom, restricted, initial, 1000, route)
+		caller := addrN(c12Manager)
+		for _, op := range c12Ops {
+			if r.Intn(2) == 0 && op != "OSetMetadata" && op != "ODelete" {
+				continue
+			}
+			mask := 0
+			if r.Intn(4) == 0 {
+				mask = r.Intn(64)
+			}
+			pc, _ := ctx.CacheContext()
+			e.setRights(pc, denom, caller, mask)
+			m, _ := app.MarkerKeeper.GetMarkerByDenom(pc, denom)
+			if op == "OWithdraw" {
+				e.fundBypass(pc, m.GetAddress(), sdk.NewCoins(sdk.NewInt64Coin("xothercoin", 50)))
+			}
+			isMgr := m.GetManager().Equals(caller)
+			bal := app.BankKeeper.GetBalance(pc, caller, denom).Amount
+			before := m.GetStatus()
+			err := e.handle(pc, e.opMsg(op, denom, caller))
+			after := before
+			if m2, err2 := app.MarkerKeeper.GetMarkerByDenom(pc, denom); err2 == nil && err == nil {
+				after = m2.GetStatus()
+			}
+			mt := "TCoin"
+			if restricted {
+				mt = "TRestricted"
+			}
+			cfg := fmt.Sprintf("{| c_status := %s; c_type := %s; c_rights := %d%%N; c_manager := %s; c_gov := false; c_govctl := %s; c_allsupply := %s; c_supply_zero := %s; c_activated := %s |}",
+				c12StatusCoq[before], mt, mask, coqBool(isMgr), coqBool(m.HasGovernanceEnabled()), coqBool(m.GetSupply().Amount.Equal(bal)), coqBool(m.GetSupply().Amount.IsZero()), coqBool(activated))
+			w.Add(fmt.Sprintf("CAccess %s %s %s %s", cfg, op, coqBool(err == nil), c12StatusCoq[after]),
+				desc{"part": "access", "op": op, "marker": "lifecycle " + strings.Join(route, ","), "type": mt, "rights": c12RightList(mask), "caller": "manager-of-creation",
+					"caller_is_stored_manager": isMgr, "marker_was_activated": activated, "status": before.String(), "ok": err == nil, "status_after": after.String()})
+			w.Count("access_cases")
+			w.Count("access_after_lifecycle")
+			if err == nil {
+				w.Count("access_accepted")
+				w.Nontrivial(fmt.Sprintf("d/%s/%s/%d/%s", op, strings.Join(route, ","), mask, initial))
 			}
 		}
 	}
